@@ -4171,6 +4171,8 @@ def skeletonize(image, mask=None, ordering=None):
             ]
         )
         | np.array([np.sum(pattern_of(index)) < 3 for index in range(512)])
+        # Keep if all four edge neighbors are set: removal would open a hole
+        | np.array([(index & 0xAA) == 0xAA for index in range(512)])
     )
 
     if ordering is None:
